@@ -273,6 +273,25 @@ def run(tier, seed):
         checks.append(('explicit', src, dict(data=data, obj=obj)))
         cases.append(dict(src=src, op='parse', data=data))
         cases.append(dict(src=src, op='build', obj=obj))
+    # an Error reached inside an element of a repeater, with and without discard=True, in every repeater class
+    for rep in ('GreedyRange(%s)', 'GreedyRange(%s, discard=True)', 'Array(3, %s)', 'Array(3, %s, discard=True)', 'RepeatUntil(len_(list_) == 9, %s)',
+                'RepeatUntil(len_(list_) == 9, %s, discard=True)', 'LazyArray(3, %s)', 'PrefixedArray(Byte, %s)', 'Prefixed(Byte, GreedyRange(%s, discard=True))'):
+        for elem in ('Struct("tag"/Byte, "body"/IfThenElse(this.tag == 255, Error, Byte))', 'Sequence("t"/Byte, If(this.t == 255, Error))',
+                     'FocusedSeq("v", "v"/Byte, If(this.v == 255, Error))', 'Select(Const(b"\\x01"), Error)'):
+            src = rep % elem
+            pre = b'\x08' if rep.startswith('Prefixed') else (b'\x03' if rep.startswith('PrefixedArray') else b'')
+            for data in (pre + b'\x01\x02\xff\x03\x01\x01\x01\x01', (b'\x02' if rep.startswith('Prefixed(') else pre) + b'\xff\x03'):
+                cases.append(dict(src=src, op='parse', data=data))
+                acc.check('explicit_parse', src, data=data)
+    # validators over a subcon that builds from nothing (Default, Const, Rebuild, Computed): the value it supplies itself is validated too
+    for src in ('OneOf(Default(Byte, 9), [1, 2, 3])', 'OneOf(Const(7, Byte), [1, 2])', 'NoneOf(Rebuild(Byte, 4), [4])',
+                'Struct("v"/OneOf(Default(Byte, 9), [1, 2, 3]))', 'Struct("n"/Byte, "v"/NoneOf(Rebuild(Byte, this.n), [0]))', 'OneOf(Default(Byte, 2), [1, 2, 3])',
+                'OneOf(Default(Int16ub, 300), [300, 2])', 'Struct("v"/NoneOf(Default(Byte, 1), [7]))'):
+        for obj in ((None, dict(), dict(n=0), dict(n=3), dict(v=None), dict(v=2)) if src.startswith('Struct') else (None, 1, 9, 2)):
+            if 'this.n' in src and not (isinstance(obj, dict) and 'n' in obj):
+                continue
+            cases.append(dict(src=src, op='build', obj=obj))
+            acc.check('built_validates', src, obj=obj)
     for src, data in [('Peek(Error)', b'\x01'), ('Sequence(Peek(Select(Const(b"\\x05"), Error)), Byte)', b'\x01')]:
         cases.append(dict(src=src, op='parse', data=data))
         acc.check('explicit_parse', src, data=data)
@@ -287,6 +306,19 @@ def run(tier, seed):
         fragment='theorems hold for every sub-construct; explicit_escapes_any_nest for any nesting depth (parse side)',
         partial=['FlagsEnum mask semantics is decided by oracle + correspondence (no theorem)', 'Error-escapes on the build side: oracle only'],
         exhaustive=False)
+
+
+@C.oracle('built_validates')
+def o_built_validates(src, obj):
+    """enforced in both directions: whatever build emits for a validated field, the same construct accepts when it parses it"""
+    c = C.get(src)
+    b = attempt(lambda: c.build(obj))
+    if b[0] != 'ok':
+        return None
+    p = attempt(lambda: c.parse(b[1]))
+    if p[0] != 'ok':
+        return 'build(%r) emitted %r, which the same construct rejects when parsing: %r' % (obj, b[1], p)
+    return None
 
 
 @C.oracle('explicit_parse')
